@@ -113,7 +113,7 @@ pub fn run(ctx: &Ctx) -> Report {
 	let mut total = Report::new();
 	total.rule = "buffers: compositions scheme x authority x PATH(2) x query x fragment (queries/fragments containing delimiters, tails of 0/1/40/600 bytes) valid per the reference DFA and re-splitting to the chosen components; x every value of every setter incl. removal (longer, equal, shorter, values needing disambiguation), on RiRefBuf and (when the buffer has a scheme) RiBuf; non-trivial = distinct (buffer, setter value, buffer type)".into();
 	let level = ctx.pick(0u8, 1u8);
-	for f in Family::BOTH {
+	for f in Family::active() {
 		let fr = FamRefs::new(refs, f);
 		let mut paths = domains::paths(&domains::seg_alphabet(f, 0), 2);
 		// first segments that contain ':' without looking like a scheme (valid only after a scheme)
